@@ -42,6 +42,15 @@ let pr_err (k : perr) = Printf.printf "E %s\n" (match k with
   | PUnsupportedWnaf -> "UnsupportedWNAF2k")
 let pr_res r = match r with Inl k -> pr_err k | Inr p -> pr_p p
 
+let pr_rows (l : (gate * fr option) list) =
+  List.iteri (fun i ((g : gate), o) ->
+    Printf.printf "B %d %s %s %s %s %s %s %s %s %s %s %s %d %d %d %d %s\n" i
+      (hex_of_fr g.q_m) (hex_of_fr g.q_l) (hex_of_fr g.q_r) (hex_of_fr g.q_o)
+      (hex_of_fr g.q_f) (hex_of_fr g.q_c) (hex_of_fr g.q_arith) (hex_of_fr g.q_range)
+      (hex_of_fr g.q_logic) (hex_of_fr g.q_fixed) (hex_of_fr g.q_var)
+      (int_of_nat g.w_a) (int_of_nat g.w_b) (int_of_nat g.w_c) (int_of_nat g.w_d)
+      (match o with Some v -> hex_of_fr v | None -> "-")) l
+
 let snap () =
   let s = !st in
   List.iteri (fun i (g : gate) ->
@@ -122,6 +131,11 @@ let step line =
   | ["fbd"; k; gx; gy; ds] ->
       let digits = List.init 256 (fun i -> if i < String.length ds then (match ds.[i] with '+' -> ZA.one | '-' -> ZA.minus_one | 'x' -> ZA.of_int 2 | _ -> ZA.zero) else ZA.zero) in
       let (r, s) = append_fixed_base_signed_digits (nat k) (fr gx, fr gy) digits !st in st := s; pr_res r
+  | ["BLK"; "fb"; base; gx; gy] ->
+      let ms = List.rev (doublings (nat_of_int 256) (fr gx, fr gy)) in
+      pr_rows (fb_block ms (nat_of_int (int_of_string base)))
+  | ["BLK"; "canon"; scalar; base] -> pr_rows (canonical_blk (nat_of_int (int_of_string scalar)) (nat_of_int (int_of_string base)))
+  | ["BLK"; "tors"; x; y; base] -> pr_rows (torsion_rows (nat_of_int (int_of_string x), nat_of_int (int_of_string y)) (nat_of_int (int_of_string base)))
   | "raw" :: rest when List.length rest = 17 ->
       let a = Array.of_list rest in
       let c : constraint0 =
